@@ -140,6 +140,8 @@ pub enum G {
     MapErr(Box<G>),
     /// `.memoized()`
     Memo(Box<G>),
+    /// `.padded()`: skips whitespace tokens before and after (`InputRef::skip_while`)
+    Padded(Box<G>),
     /// `.with_state(Track::default())`
     WithState(Box<G>),
     /// `.map(|v| second component of the pair)` (explicit form of ignore_then)
@@ -168,6 +170,11 @@ pub enum G {
     Rec(Box<G>, bool),
     /// reference to an enclosing `Rec`: 0 = the innermost, 1 = the next one out
     RecRef(u8),
+    /// `let x = def; body` where `Var` inside `body` is a CLONE of the one parser value built for `def` (so a
+    /// `memoized()` in `def` is one memo table entry set shared by all uses); not nested
+    Let(Box<G>, Box<G>),
+    /// a use of the enclosing `Let`'s parser
+    Var,
     Rep(Box<G>, Bounds, Sink),
     // ---- binary / n-ary ---------------------------------------------------------------------
     Then(Box<G>, Box<G>),
@@ -233,10 +240,10 @@ impl G {
     pub fn children(&self) -> Vec<&G> {
         match self {
             Just(_) | JustSeq(..) | Any | OneOf(_) | NoneOf(_) | Select(_) | End | Empty
-            | Custom(..) | EmptyChoice | JustCtx | RecRef(_) | AnyRef | SelectRef(_) => vec![],
+            | Custom(..) | EmptyChoice | JustCtx | RecRef(_) | AnyRef | SelectRef(_) | Var => vec![],
             Map(a) | To(a) | Ignored(a) | Filter(a) | TryMap(a) | TryMapWith(a) | OrNot(a)
             | Not(a) | Rewind(a) | Boxed(a) | ToSlice(a) | ToSpan(a) | Validate(a, _)
-            | Labelled(a, _) | MapErr(a) | Memo(a) | WithState(a) | NestedDelims(a)
+            | Labelled(a, _) | MapErr(a) | Memo(a) | Padded(a) | WithState(a) | NestedDelims(a)
             | WithCtx(_, a) | MapCtx(a) | RepCtx(a) | RepCtxMax(a) | TryRepCtx(a) | RepCtxPre(a, _, _) | CtxBare(_, a) | Snd(a) | Fst(a) | MapUnit(a)
             | MapZ(a) | SliceWith(a) | SpanWith(a) | Mid(a) | Lazy(a) | Ext(a, _) | CustomNest(a) | Rec(a, _) => vec![a],
             Rep(a, _, s) | IntoIter(a, s) => {
@@ -245,7 +252,7 @@ impl G {
                 v
             }
             Then(a, c) | IgnoreThen(a, c) | ThenIgnore(a, c) | Or(a, c) | AndIs(a, c)
-            | PaddedBy(a, c) | Recover(a, c) | ThenWithCtx(a, c) | IgnoreWithCtx(a, c) => {
+            | PaddedBy(a, c) | Recover(a, c) | ThenWithCtx(a, c) | IgnoreWithCtx(a, c) | Let(a, c) => {
                 vec![a, c]
             }
             DelimitedBy(a, o, c) | SkipUntil(a, o, c) | Retry(a, o, c) => vec![a, o, c],
@@ -283,7 +290,7 @@ impl G {
                 g,
                 Just(_) | JustSeq(..) | Any | OneOf(_) | NoneOf(_) | Select(_) | End | Empty | Custom(..) | JustCtx | AnyRef | SelectRef(_)
                     | Map(_) | To(_) | Ignored(_) | Filter(_) | TryMap(_) | TryMapWith(_) | Boxed(_) | ToSlice(_) | ToSpan(_)
-                    | Validate(..) | Labelled(..) | MapErr(_) | Memo(_) | WithState(_) | Snd(_) | Fst(_) | MapUnit(_) | MapZ(_)
+                    | Validate(..) | Labelled(..) | MapErr(_) | Memo(_) | Padded(_) | WithState(_) | Snd(_) | Fst(_) | MapUnit(_) | MapZ(_)
                     | SliceWith(_) | SpanWith(_) | Mid(_) | Then(..) | IgnoreThen(..) | ThenIgnore(..) | PaddedBy(..)
                     | DelimitedBy(..) | Group(..) | WithCtx(..) | ThenWithCtx(..) | IgnoreWithCtx(..) | MapCtx(_)
                     | Recover(..) | SkipUntil(..) | Retry(..)
@@ -343,11 +350,12 @@ pub fn nullable(g: &G) -> bool {
         Custom(k, ok) => *k % 10 == 0 && *ok,
         EmptyChoice => false,
         Map(a) | To(a) | Ignored(a) | Filter(a) | TryMap(a) | TryMapWith(a) | Boxed(a)
-        | ToSlice(a) | ToSpan(a) | Validate(a, _) | Labelled(a, _) | MapErr(a) | Memo(a)
+        | ToSlice(a) | ToSpan(a) | Validate(a, _) | Labelled(a, _) | MapErr(a) | Memo(a) | Padded(a)
         | WithState(a) | WithCtx(_, a) | MapCtx(a) | Snd(a) | Fst(a) | MapUnit(a) | MapZ(a)
         | SliceWith(a) | SpanWith(a) | Mid(a) | Ext(a, _) | CustomNest(a) | Rec(a, _) => nullable(a),
         // conservative: a recursive reference may match the empty string
-        RecRef(_) => true,
+        RecRef(_) | Var => true,
+        Let(_, c) => nullable(c),
         Lazy(_) => true,
         OrNot(_) | Not(_) | Rewind(_) => true,
         Rep(a, bd, sink) => {
@@ -592,6 +600,7 @@ impl fmt::Display for G {
             Labelled(a, c) => write!(f, "{}({})", if *c { "labelled_ctx" } else { "labelled" }, a),
             MapErr(a) => write!(f, "map_err({})", a),
             Memo(a) => write!(f, "memoized({})", a),
+            Padded(a) => write!(f, "padded({})", a),
             WithState(a) => write!(f, "with_state({})", a),
             Snd(a) => write!(f, "snd({})", a),
             Fst(a) => write!(f, "fst({})", a),
@@ -605,6 +614,8 @@ impl fmt::Display for G {
             CustomNest(a) => write!(f, "custom_nest({})", a),
             Rec(a, d) => write!(f, "{}({})", if *d { "rec_declare" } else { "rec" }, a),
             RecRef(k) => write!(f, "rec_ref{}", k),
+            Var => write!(f, "var"),
+            Let(a, c) => write!(f, "let({},{})", a, c),
             Rep(a, x, s) => {
                 write!(f, "repeated[")?;
                 bd(f, x)?;
@@ -888,6 +899,7 @@ impl<'a> P<'a> {
             "labelled_ctx" => Labelled(un(self)?, true),
             "map_err" => MapErr(un(self)?),
             "memoized" => Memo(un(self)?),
+            "padded" => Padded(un(self)?),
             "with_state" => WithState(un(self)?),
             "snd" => Snd(un(self)?),
             "fst" => Fst(un(self)?),
@@ -902,6 +914,11 @@ impl<'a> P<'a> {
             "custom_nest" => CustomNest(un(self)?),
             "rec" => Rec(un(self)?, false),
             "rec_declare" => Rec(un(self)?, true),
+            "var" => Var,
+            "let" => {
+                let (a, c) = bin(self)?;
+                Let(a, c)
+            }
             "rec_ref0" => RecRef(0),
             "rec_ref1" => RecRef(1),
             "nested_delims" => NestedDelims(un(self)?),
